@@ -8,7 +8,7 @@ from typing import Dict, List, Optional, Set, Tuple
 
 from ..astutil import arg_of, call_name, calls, enclosing_loops, guards, kwarg, last_attr, stmt_key, txt, walk_local
 from ..cfg import CFG
-from ..flow import bound_from, expand_helpers, facts_nnf, path_facts
+from ..flow import bound_from, effective_compare, expand_helpers, facts_nnf, inline_reaching, key_function, oriented, path_facts
 from ..index import AnalysisError, dotted
 from ..report import Ctx
 
@@ -243,59 +243,82 @@ def _sort_key_of(func: ast.FunctionDef, name: str) -> Optional[str]:
     return None
 
 
+def _list_sort_key(ctx: Ctx, func: ast.FunctionDef, cfg: CFG, loop: ast.For) -> Optional[str]:
+    """ accessor (relative to an element) the iterated list is sorted by, or None """
+    base = loop.iter
+    while isinstance(base, (ast.Subscript, ast.BinOp)):
+        base = base.value if isinstance(base, ast.Subscript) else base.left
+    if isinstance(base, ast.Call) and call_name(base) == "sorted":
+        source: Optional[ast.AST] = base
+    elif isinstance(base, ast.Name):
+        defs = [d for d in cfg.reaching_defs(base.id, cfg.n(loop))]
+        if defs == [-1] or (len(defs) == 1 and defs[0] == -1):
+            return "location.start" if base.id in {a.arg for a in func.args.args} else None
+        values = []
+        for d in defs:
+            node = cfg.nodes[d].ast if d >= 0 else None
+            if isinstance(node, (ast.Assign, ast.AnnAssign)) and node.value is not None:
+                values.append(node.value)
+            else:
+                return None
+        if len(values) != 1:
+            return None
+        source = values[0]
+    else:
+        return None
+    if not (isinstance(source, ast.Call) and call_name(source) == "sorted"):
+        return None
+    key = kwarg(source, "key")
+    if key is None:
+        return "location.start"
+    resolved = key_function(ctx.repo, FORM, func, key)
+    if resolved is None:
+        return None
+    param, body = resolved
+    body = body.elts[0] if isinstance(body, ast.Tuple) and body.elts else body
+    path = dotted(body)
+    if path and path.split(".")[0] == param and "." in path:
+        return path.partition(".")[2]
+    return None
+
+
 def r05_5(ctx: Ctx) -> None:
     for qual in ("_find_hybrids", "_find_interleaved", "_find_neighbouring"):
         func = ctx.fn(FORM, qual)
-        for loop in [n for n in walk_local(func) if isinstance(n, ast.For)]:
-            var = txt(loop.target)
-            for stmt in loop.body:
-                if not (isinstance(stmt, ast.If) and any(isinstance(s, ast.Break) for s in stmt.body)):
-                    continue
-                test = stmt.test
-                if not (isinstance(test, ast.Compare) and len(test.ops) == 1):
-                    continue
-                sides = [test.left, test.comparators[0]]
-                mine = [s for s in sides if dotted(s) and dotted(s).split(".")[0] == var]
-                if len(mine) != 1:
+        cfg = CFG(func)
+        for loop in [n for n in walk_local(func) if isinstance(n, ast.For) and isinstance(n.target, ast.Name)]:
+            var = loop.target.id
+            for brk in [b for b in walk_local(loop) if isinstance(b, ast.Break)
+                        and enclosing_loops(b, stop=func) and enclosing_loops(b, stop=func)[0] is loop]:
+                inner = [(e, t) for e, t in path_facts(cfg, brk) if any(a is loop for a in _ancestors(e))]
+                comparisons = []
+                for expr, truth in inner:
+                    eff = effective_compare(expr, truth)
+                    if eff is None:
+                        continue
+                    left, op, right = eff
+                    resolved = (inline_reaching(cfg, expr, left, keep={var}), op, inline_reaching(cfg, expr, right, keep={var}))
+                    turned = oriented(resolved, lambda x: bool(dotted(x)) and dotted(x).split(".")[0] == var)
+                    if turned is not None:
+                        comparisons.append(turned)
+                if len(comparisons) != 1 or len(inner) != 1:
                     continue
                 ctx.call_sites += 1
-                accessor = dotted(mine[0]).partition(".")[2]
-                # iterated list and its sort key
-                base = loop.iter
-                while isinstance(base, (ast.Subscript, ast.BinOp)):
-                    base = base.value if isinstance(base, ast.Subscript) else base.left
-                name = base.id if isinstance(base, ast.Name) else None
-                # the binding in force at the loop: last assignment before the loop
-                key = None
-                if name:
-                    assigns = [n for n in walk_local(func) if isinstance(n, ast.Assign) and n.lineno < loop.lineno
-                               and any(isinstance(t, ast.Name) and t.id == name for t in n.targets)]
-                    if assigns:
-                        last = assigns[-1].value
-                        if isinstance(last, ast.Call) and call_name(last) == "sorted":
-                            k = kwarg(last, "key")
-                            if k is None:
-                                key = "location.start"
-                            elif isinstance(k, ast.Lambda):
-                                body = k.body.elts[0] if isinstance(k.body, ast.Tuple) else k.body
-                                path = dotted(body)
-                                key = path.partition(".")[2] if path and "." in path else None
-                    elif name in {a.arg for a in func.args.args}:
-                        key = "location.start"
-                thing = f"break on {txt(test)}"
+                mine, op, bound = comparisons[0]
+                accessor = dotted(mine).partition(".")[2]
+                key = _list_sort_key(ctx, func, cfg, loop)
+                thing = f"break on {txt(mine)} {op} {txt(bound)}"
                 if key is None:
-                    ctx.cannot("R05.5", FORM, stmt, qual, thing, f"cannot determine the sort key of `{txt(loop.iter)}`")
+                    ctx.cannot("R05.5", FORM, brk, qual, thing, f"cannot determine the sort key of `{txt(loop.iter)}`")
                     continue
-                # direction: `x.acc > bound` (or bound < x.acc / bound <= x.acc)
-                larger = (mine[0] is test.left and isinstance(test.ops[0], (ast.Gt, ast.GtE))) or \
-                         (mine[0] is not test.left and isinstance(test.ops[0], (ast.Lt, ast.LtE)))
+                larger = op in (">", ">=")
                 ok = larger and accessor in LOWER_BOUNDS.get(key, set())
-                ctx.ob("R05.5", FORM, stmt, qual, thing, ok,
+                ctx.ob("R05.5", FORM, brk, qual, thing, ok,
                        f"the sweep over `{txt(loop.iter)}` (sorted by {key}) stops early only on a quantity that is a lower "
                        f"bound of the sort key, so every later element fails the test as well",
                        detail="" if ok else f"`{var}.{accessor}` is not a lower bound of the sort key `{key}`: later "
                                             f"elements of the list may still qualify",
-                       form=f"for {var} in {txt(loop.iter)}: if {txt(test)}: break   [sort key: {key}]")
+                       form=f"for {var} in {txt(loop.iter)}: if {txt(mine)} {op} {txt(bound)}: break   [sort key: {key}]")
 
 
 def _ancestors(node: ast.AST):
